@@ -1,18 +1,67 @@
 """C09 - call/N, once/1, findall/3, = and \\= agree with their standard definitions."""
-from .. import gen, progcheck
+from .. import gen, progcheck, par, scen
+from ..frame import Check
+from ..common import Sym
 PROP = 'C09'
 
 
 def knobs(rnd):
-    return gen.Knobs(cut=rnd.random() < 0.2, ctrl=rnd.random() < 0.4, eq=True, meta=True, max_body=4, n_rules=(2, 4))
+    return gen.Knobs(cut=rnd.random() < 0.5, ctrl=rnd.random() < 0.4, eq=True, meta=True, max_body=4, n_rules=(2, 4))
+
+
+V = lambda n: ('V', n)
+
+
+def committed_goal_case(rep, drv, rnd, i):
+    """meta-calls on goals whose answers come from clauses that end in a cut (the generated function
+    yields True there), also with a second definition chained after the first"""
+    atoms = rnd.sample(['a', 'b', 'c', 'd'], rnd.randint(1, 3))
+    prog = [('it', [('A', a)], 'tru') for a in atoms]
+    prog.append(('first', [V('X')], ('conj', ('call', 'it', [V('X')]), 'cut'), True))
+    prog.append(('firstp', [V('X'), V('Y')], ('conj', ('call', 'it', [V('X')]), ('conj', ('call', 'it', [V('Y')]), 'cut')), True))
+    callers = [
+        ('t1', [V('X'), V('L')], ('call', 'findall', [V('X'), ('F', 'first', [V('X')]), V('L')])),
+        ('t2', [V('X'), V('L')], ('conj', ('call', 'findall', [V('X'), ('F', 'first', [V('X')]), V('L')]), ('call', '=', [V('X'), ('A', 'free')]))),
+        ('t3', [V('X'), V('L')], ('conj', ('call', '=', [V('G'), ('F', 'first', [V('X')])]),
+                                  ('call', 'findall', [('F', 'got', [V('X')]), V('G'), V('L')]))),
+        ('t4', [V('X')], ('call', 'once', [('F', 'first', [V('X')])])),
+        ('t5', [V('X')], ('call', 'call', [('A', 'first'), V('X')])),
+        ('t6', [V('X'), V('Y'), V('L')], ('conj', ('call', 'findall', [('F', 'p', [V('X'), V('Y')]), ('F', 'firstp', [V('X'), V('Y')]), V('L')]),
+                                          ('call', 'it', [V('X')]))),
+        ('t7', [V('X'), V('L')], ('conj', ('call', 'findall', [V('Z'), ('F', 'first', [V('Z')]), V('L')]), ('call', 'first', [V('X')]))),
+        ('t8', [V('X')], ('disj', ('ite', ('call', 'findall', [V('X'), ('F', 'first', [V('X')]), ('P', [('_',)], ('_',))]), ('call', '=', [V('X'), ('A', 'kept')])), 'fail')),
+    ]
+    chosen = rnd.sample(callers, rnd.randint(3, len(callers)))
+    prog += [(n, h, b, True) for n, h, b in chosen]
+    ops = [('load', 'overwrite', prog)]
+    qs = [('query', n, ('all',), [[Sym('v'), j] for j in range(len(h))]) for n, h, b in chosen]
+    ops += qs
+    if rnd.random() < 0.6:
+        ops.append(('load', 'combine', [('first', [('A', 'z')], 'tru')]))
+        ops += qs
+        ops.append(('query', 'first', ('all',), [[Sym('v'), 0]]))
+    rep.count('committed-goal-family')
+    if scen.three_way(rep, drv, ops, 'case %d committed goals' % i) == 'ok':
+        rep.nontriv(scen.norm([n for n, h, b in chosen] + atoms))
+
+
+def case(rep, drv, rnd, i, tier):
+    if i % 8 == 7:
+        return committed_goal_case(rep, drv, rnd, i)
+    return progcheck.case(rep, drv, rnd, i, tier)
 
 
 def run(tier):
-    progcheck.run(PROP, tier, knobs, 900, 12000,
-                  rule='stratified random programs whose bodies use call/1..3 (atom or compound goal, inline or via a variable '
-                       'bound earlier in the body, extra arguments), once/1, findall/3, = and \\= with goals that have 0-3 '
-                       'solutions; any exception escaping a query is a violation; non-trivial = the reference yields >= 1 '
-                       'answer; distinct = distinct (program, query)')
+    n = 900 if tier == 'quick' else 12000
+    progcheck.configure(PROP, knobs=knobs, sched_mode='all', queries_per_prog=3)
+    with Check(PROP, tier) as chk:
+        par.run_cases(chk.rep, 'harness.checks.c09', 'case', n)
+        chk.finish(rule='stratified random programs whose bodies use call/1..3 (atom or compound goal, inline or via a variable '
+                        'bound earlier in the body or through a chain of variables, extra arguments, one goal term called twice), '
+                        'once/1, findall/3, = and \\= (incl. same-name structures of different arity) with goals that have 0-3 '
+                        'solutions; one case in eight: meta-calls on goals whose answers come from clauses ending in a cut, with a '
+                        'second definition chained behind; any exception escaping a query is a violation; non-trivial = the '
+                        'reference yields >= 1 answer; distinct = distinct (program, query)')
 
 
 replay = progcheck.replay
